@@ -12,7 +12,7 @@
      code by the driver, listed in KNOWN_FINDINGS.txt). *)
 From Coq Require Import String.
 From PDV Require Import lib.Base gen.Gen_C08 model.C08_Steps model.C08_Builder
-     proof.C08_PlanProof proof.C08_BuilderProof proof.C08_Skel.
+     proof.C08_PlanProof proof.C08_BuilderProof proof.C08_JointMain proof.C08_Skel.
 Local Open Scope Z_scope.
 
 (* ---- the checker is sound, for every region state, goal and plan ---- *)
@@ -91,14 +91,20 @@ Theorem C08_leave_joint_ok_bounded :
     exists ss kl kr, leave_joint_op c r = Built ss kl kr /\ plan_ok (leave_goal r) r ss = true.
 Proof. exact leave_joint_ok_bounded_pf. Qed.
 
-(* ---- statements not yet proved in general (Pass B): visible, listed under "todo" in checks/C08.json ---- *)
-(* the joint path for any number of stores *)
-Definition C08_builder_joint_plan_ok_general_todo : Prop :=
+(* ---- the joint path, in general: ANY region (any number of peers, any peer order and ids), any sequence of builder
+        calls, any cluster (store states, labels), any allocator answers.  If the builder model takes the joint path and
+        produces a plan, the checker accepts it — and by C08_plan_ok_sound its execution satisfies every clause.
+        Hypotheses: the origin has one peer per store, is not in a joint state, and its leader is a voter. ---- *)
+Theorem C08_builder_joint_plan_ok :
   forall i b ss kl kr,
-    NoDup (map pstore (peers (i_region i))) -> is_in_joint (i_region i) = false ->
+    nodup_stores (peers (i_region i)) = true ->
+    is_in_joint (i_region i) = false ->
+    (exists lp, get_store_peer (i_region i) (leader (i_region i)) = Some lp /\ prole lp = Voter) ->
     prepared i = Some b -> b_use_joint b = true -> build i = Built ss kl kr ->
     plan_ok (goal_of b) (i_region i) ss = true.
+Proof. exact builder_joint_plan_ok_general_pf. Qed.
 
+(* ---- statement not yet proved in general: visible, listed under "todo" in checks/C08.json ---- *)
 (* the non-joint path for any number of stores, outside the two refuted classes *)
 Definition C08_builder_nonjoint_plan_ok_general_todo : Prop :=
   forall i b ss kl kr,
@@ -126,3 +132,4 @@ Print Assumptions C08_joint_path_not_excluded.
 Print Assumptions C08_builder_plan_ok_refuted.
 Print Assumptions C08_builder_plan_ok_no_split_refuted.
 Print Assumptions C08_leave_joint_ok_bounded.
+Print Assumptions C08_builder_joint_plan_ok.
